@@ -311,6 +311,7 @@ func (g *gen) loopHeader(b *ssa.BasicBlock, li *loopInfo, in State, rc string) (
 		e := g.newEnv(in, g.entryOr(pre)) // old(): function entry; pre(): the state before the loop
 		e.pre = pre
 		e.atBlock = b
+		e.curParams = true
 		t, err := g.elabBool(cl.E, e)
 		if err != nil {
 			// An invariant that cannot be stated for this loop any more (it names a variable the loop no longer
@@ -368,6 +369,7 @@ func (g *gen) loopHeader(b *ssa.BasicBlock, li *loopInfo, in State, rc string) (
 		e := g.newEnv(st, g.entryOr(pre))
 		e.pre = pre
 		e.atBlock = b
+		e.curParams = true
 		t, err := g.elabBool(cl.E, e)
 		if err != nil {
 			continue
@@ -420,6 +422,7 @@ func (g *gen) loopBackEdge(src, header *ssa.BasicBlock, st State, rc string) {
 		e := g.newEnv(st, g.entryOr(g.loopPre[header]))
 		e.pre = g.loopPre[header]
 		e.atBlock = header
+		e.curParams = true
 		t, err := g.elabBool(cl.E, e)
 		if err != nil {
 			continue
